@@ -5,7 +5,7 @@ H+R monitor: class-level recorders on MultiImage.__add__/__sub__/__mul__/__trued
 exact and a wrong pairing is named in the witness. Each operand is produced by a random chain of
 constructors/transformers (insertion orders, append, from_images, concat, from_vector, copy, jit,
 vmap, tree_flatten/unflatten, expand->combine_axes). One jitted callable reused for both storage orders; operand
-representations float32 / NumPy blocks / int32 / float64 under x64."""
+representations float32 / NumPy blocks / int32 / float64 under x64. Use-then-mutate-then-use histories (operands used, grown in place, used again)."""
 from __future__ import annotations
 
 import numpy as np
